@@ -1082,6 +1082,7 @@ func c05InvolutionWitnesses(r *Run) {
 }
 
 func propC05(r *Run) {
+	defer c05CliOracles(r)
 	L, _, nRandom := scope(r)
 	r.exhaustive = true
 	c05InvolutionWitnesses(r)
